@@ -202,9 +202,8 @@ fn eval_embedded(ctx: &Ctx, case: &EmbeddedCase) -> Verdict {
             let rec = &case.cs.records[ri];
             ensure!(run.clean_failure() && run.stdout.is_empty(), "{what}: record {ri} has a non-diploid genotype in a selected sample; the run must fail without output: {}", run.describe());
             let stderr = run.stderr_str();
-            let tokens: Vec<&str> = stderr.split(|c: char| !(c.is_alphanumeric() || c == '_')).collect();
             ensure!(
-                tokens.contains(&case.cs.contigs[rec.contig].as_str()) && tokens.contains(&rec.pos.to_string().as_str()),
+                crate::props::common::names_site(&stderr, &case.cs.contigs[rec.contig], rec.pos),
                 "{what}: the ploidy error must name {}:{} (record {ri}): {}",
                 case.cs.contigs[rec.contig],
                 rec.pos,
